@@ -21,6 +21,18 @@ func (e *Engine) define(label string, w int, mk func(v *Term) *Term) Sc {
 	return s
 }
 
+// defineAs returns the variable standing for the value of res (a Float64-sorted term); the same
+// term always gets the same variable on a path, so syntactically identical computations are
+// identical values without asking the solver to compare two multipliers.
+func (e *Engine) defineAs(label string, res *Term) Sc {
+	if s, ok := e.defCache[res]; ok {
+		return s
+	}
+	s := e.define(label, 64, func(v *Term) *Term { return e.tt.Eq(e.tt.ToFP(v), res) })
+	e.defCache[res] = s
+	return s
+}
+
 func cmpOp(op token.Token, signed bool) string {
 	switch op {
 	case token.LSS:
@@ -301,7 +313,7 @@ func (e *Engine) floatOp(op token.Token, a, b Sc) Sc {
 	case token.ADD, token.SUB, token.MUL, token.QUO:
 		f := map[token.Token]string{token.ADD: "fp.add RNE", token.SUB: "fp.sub RNE", token.MUL: "fp.mul RNE", token.QUO: "fp.div RNE"}[op]
 		res := e.tt.App(f, sortF64, fa, fb)
-		return e.define("fr", 64, func(v *Term) *Term { return e.tt.Eq(e.tt.ToFP(v), res) })
+		return e.defineAs("fr", res)
 	case token.EQL:
 		return e.symSc(e.tt.App("fp.eq", 0, fa, fb))
 	case token.NEQ:
@@ -575,7 +587,7 @@ func (e *Engine) convert(from, to types.Type, fi, ti tinfo, v Val) Val {
 			cvt = "(_ to_fp 11 53) RNE"
 		}
 		res := e.tt.App(cvt, sortF64, s.t)
-		return e.define("i2f", 64, func(v *Term) *Term { return e.tt.Eq(e.tt.ToFP(v), res) })
+		return e.defineAs("i2f", res)
 	case fi.float && !ti.float:
 		if fi.w != 64 {
 			panic(pathEnd{"unsupported", "float32 to int"})
